@@ -7,6 +7,7 @@ import (
 	"sync"
 	"testing"
 
+	"github.com/WICG/webpackage/go/verifyield"
 	"pgregory.net/rapid"
 	"verifsim/core"
 )
@@ -207,16 +208,27 @@ func firstDiff(a, b []byte) int {
 
 // ---- C18: seeded cooperative interleaving -------------------------------------------------------
 
+func sitesOf(ts []*stask) int {
+	n := 0
+	for _, t := range ts {
+		n += t.sites
+	}
+	return n
+}
+
 type stask struct {
-	id      int
-	in      *inst
-	resume  chan struct{}
-	yielded chan struct{}
-	done    bool
-	out     []byte
-	err     error
-	panicV  interface{}
-	yields  int
+	rng       uint64
+	sites     int
+	libYields int
+	id        int
+	in        *inst
+	resume    chan struct{}
+	yielded   chan struct{}
+	done      bool
+	out       []byte
+	err       error
+	panicV    interface{}
+	yields    int
 }
 
 // TestInterleave: N caller tasks are real goroutines, but exactly one runs at
@@ -224,7 +236,25 @@ type stask struct {
 // run is a Draw.
 func TestInterleave(t *testing.T) {
 	rapid.Check(t, func(t *rapid.T) {
-		core.Run(t, "serial/interleave", func(c *core.Ctx) {
+		core.Run(t, "serial/interleave", func(c *core.Ctx) { interleave(c, false) })
+	})
+}
+
+// TestInterleaveFine: the same, in a binary whose library sources carry
+// AST-inserted yield points (function entries, loop heads): a task may also be
+// parked inside the library, not only at its destination's Write. Whether a
+// given yield point parks is decided by a per-task generator seeded by a Draw.
+func TestInterleaveFine(t *testing.T) {
+	rapid.Check(t, func(t *rapid.T) {
+		core.Run(t, "serial/interleave-fine", func(c *core.Ctx) { interleave(c, true) })
+	})
+}
+
+var curTask *stask // the task the scheduler is currently running (nil: none)
+
+func interleave(c *core.Ctx, fine bool) {
+	{
+		{
 			ninst := c.Int("ninsts", 1, 4)
 			var insts []*inst
 			var solo []outcome
@@ -240,11 +270,32 @@ func TestInterleave(t *testing.T) {
 				}
 			}
 			ntasks := c.Int("ntasks", 2, 8)
+			period := uint64(1)
+			if fine {
+				period = uint64(c.PickInt("yield.period", 1, 2, 5, 17, 60))
+				verifyield.Hook = func(site int) {
+					tk := curTask
+					if tk == nil {
+						return
+					}
+					tk.sites++
+					tk.rng = tk.rng*6364136223846793005 + 1442695040888963407
+					if (tk.rng>>33)%period == 0 {
+						tk.libYields++
+						tk.yielded <- struct{}{}
+						<-tk.resume
+					}
+				}
+				defer func() { verifyield.Hook = nil }()
+			}
 			var tasks []*stask
 			ref := []int{}
 			for i := 0; i < ntasks; i++ {
 				k := c.Pick("task.inst", ninst) // several tasks may share one instance: shared read-only inputs
 				tk := &stask{id: i, in: insts[k], resume: make(chan struct{}), yielded: make(chan struct{})}
+				if fine {
+					tk.rng = c.U64("task.yieldSeed", 0, ^uint64(0))
+				}
 				tasks = append(tasks, tk)
 				ref = append(ref, k)
 			}
@@ -285,8 +336,20 @@ func TestInterleave(t *testing.T) {
 				if len(schedule) < 64 {
 					schedule = append(schedule, byte('0'+tk.id))
 				}
+				curTask = tk
 				tk.resume <- struct{}{}
 				<-tk.yielded
+				curTask = nil
+			}
+			if fine {
+				lib := 0
+				for _, tk := range tasks {
+					lib += tk.libYields
+				}
+				if lib > 0 {
+					c.Probe("task parked inside the library (AST yield point)")
+				}
+				c.Event("library yield points passed / parked: %d / %d", sitesOf(tasks), lib)
 			}
 			c.Event("schedule %s", schedule)
 			switches := 0
@@ -315,8 +378,8 @@ func TestInterleave(t *testing.T) {
 			if switches > 3 {
 				c.Probe("schedule with more than 3 task switches")
 			}
-		})
-	})
+		}
+	}
 }
 
 // ---- C18: real parallelism under the race detector ---------------------------------------------------
